@@ -527,6 +527,25 @@ def extract(repo):
     need("load_fontinfo(&fontinfo_path,&meta,&mutlib)?" in sq and
          "FontInfo::from_file(fontinfo_path,meta.format_version,lib).map_err(FontLoadError::FontInfo)?" in squeeze(fsrc),
          "fontinfo loading call chain changed")
+    # what the request switches select, and what they do not: the lib and features.fea are read on
+    # request; the RoboFab step above is guarded by the FILE's existence, not by request.lib
+    need("letmutlib=ifrequest.lib&&lib_path.exists(){load_lib(&lib_path)?}else{Plist::new()};" in sq,
+         "the lib is no longer loaded exactly when requested and present")
+    need("letmutfeatures=ifrequest.features&&features_path.exists(){load_features(&features_path)?}else{Default::default()};" in sq,
+         "features.fea is no longer loaded exactly when requested and present")
+    need(sq.count("lib.remove(PUBLIC_OBJECT_LIBS_KEY);") == 1, "public.objectLibs is no longer removed from the lib exactly once")
+    need(sq.index("load_fontinfo(&fontinfo_path,&meta,&mutlib)?") < sq.index("lib.remove(PUBLIC_OBJECT_LIBS_KEY);")
+         < sq.index("upconversion::upconvert_ufov1_robofab_data("), "order of font info / objectLibs removal / lib data changed")
+    need("request" not in sq[sq.index("ifmeta.format_version==FormatVersion::V1&&lib_path.exists()"):
+                            sq.index("meta.format_version=FormatVersion::V3;")],
+         "the lib data step now depends on the request")
+    st = strip_comments(open(os.path.join(repo, "src", "shared_types.rs")).read())
+    mk = re.search(r'pub static PUBLIC_OBJECT_LIBS_KEY\s*:\s*&str\s*=\s*"([^"]+)"\s*;', st)
+    need(mk, "PUBLIC_OBJECT_LIBS_KEY not found")
+    out["object_libs_key"] = mk.group(1)
+    need(re.search(r"pub fn load<P: AsRef<Path>>\(path: P\) -> Result<Font, FontLoadError>\s*\{\s*"
+                   r"Self::load_requested_data\(path, DataRequest::all\(\)\)\s*\}", fsrc),
+         "Font::load is no longer load_requested_data(DataRequest::all())")
     out["version_set"] = True
     return out
 
@@ -568,6 +587,7 @@ def render(a):
     L.append("Definition extracted_lib_removed : list string := %s." % glist([gstr(k) for k in a["lib_removed"]]))
     L.append("Definition extracted_feature_order_mode : order_mode := %s." % a["feature_order_mode"])
     L.append("Definition extracted_version_set : bool := %s." % ("true" if a["version_set"] else "false"))
+    L.append("Definition extracted_object_libs_key : string := %s." % gstr(a["object_libs_key"]))
     return "\n".join(L) + "\n"
 
 
